@@ -31,6 +31,10 @@ class Semantics:
     def assign(self, interp, path, body, bb, st):
         pass
 
+    def bool_switch(self, interp, path, body, bb, term):
+        """-> True / False to force the outcome of a switch on a bool that has no effect on the model, None otherwise"""
+        return None
+
 
 class PathState:
     __slots__ = ('env', 'memo', 'alias', 'tags', 'trail', 'seen')
@@ -222,6 +226,8 @@ class Interp:
                     if is_bool and (t.get('mo') or '').startswith(self.inert_macros):
                         # logging / tracing expansions: whether the event is enabled has no effect on the model
                         stack.append((zero[0], path))
+                    elif is_bool and self.sem.bool_switch(self, path, body, bb, t) is not None:
+                        stack.append((t['else'] if self.sem.bool_switch(self, path, body, bb, t) else zero[0], path))
                     elif is_bool:
                         val, r, neg = self.bool_value(path, body, pl['l'])
                         if val is not None:
